@@ -46,6 +46,32 @@ type RunSpec struct {
 	Log    string            `json:"log"`    // NDJSON callback log, appended at every callback
 	Result string            `json:"result"` // final result JSON
 	Bodies map[string]string `json:"bodies"` // optional: "<pkgpath>|<gen>|<type>" -> text to render instead of the default
+	// Warm: files that the environment edited since the previous run (same size, same modification time). Before the judged
+	// run the SAME process loads the module once while each of them still has its earlier content (a read-only
+	// NewContext), then puts the edited content back: whatever a load remembers per file name / size / time is stale then.
+	Warm []WarmFile `json:"warm"`
+}
+
+// WarmFile: absolute path and the content the file had before the environment's edit.
+type WarmFile struct {
+	Path string `json:"path"`
+	Old  string `json:"old"`
+}
+
+// swapKeepingTime writes content to path and restores the file's modification time.
+func swapKeepingTime(path string, content []byte) ([]byte, error) {
+	st, err := os.Stat(path)
+	if err != nil {
+		return nil, err
+	}
+	cur, err := os.ReadFile(path)
+	if err != nil {
+		return nil, err
+	}
+	if err := os.WriteFile(path, content, st.Mode().Perm()); err != nil {
+		return nil, err
+	}
+	return cur, os.Chtimes(path, st.ModTime(), st.ModTime())
 }
 
 // Call is one callback gengo made into a generator.
@@ -436,6 +462,23 @@ func RunChild(args []string) error {
 		}
 	}
 	res := RunResult{}
+	if len(spec.Warm) > 0 {
+		// an earlier load in this process, on the module as it was before the environment's last edits
+		edited := make([][]byte, len(spec.Warm))
+		for i, w := range spec.Warm {
+			cur, err := swapKeepingTime(w.Path, []byte(w.Old))
+			if err != nil {
+				return err
+			}
+			edited[i] = cur
+		}
+		_, _ = gengo.NewContext(&gengo.GeneratorArgs{Globals: spec.Globals, Entrypoint: patterns, OutputFileBaseName: Base, All: spec.All, Force: spec.Force})
+		for i, w := range spec.Warm {
+			if _, err := swapKeepingTime(w.Path, edited[i]); err != nil {
+				return err
+			}
+		}
+	}
 	func() {
 		// no recover: a panic inside gengo or a generator kills the process, as it would kill a real gengo run
 		ex, err := gengo.NewContext(&gengo.GeneratorArgs{Globals: spec.Globals, Entrypoint: patterns, OutputFileBaseName: Base, All: spec.All, Force: spec.Force})
